@@ -100,6 +100,11 @@ void ob_c04j_arange()
     { VIEW(v, view::arange(2, 8, 2, i64)); EXPECT_VIEW1("C04.view.arange.shape", "C04.view.arange.element", v, 3, 2 + 2*(long)i, 1); }
     { VIEW(v, view::arange(2, 9, 3, i64)); EXPECT_VIEW1("C04.view.arange.stop_not_on_the_grid", "C04.view.arange.element", v, 3, 2 + 3*(long)i, 2); }
     { VIEW(v, view::arange(-3, 1, i64)); EXPECT_VIEW1("C04.view.arange.shape", "C04.view.arange.element", v, 4, -3 + (long)i, 3); }
+    { VIEW(v, view::arange(5, 1, -1, i64)); EXPECT_VIEW1("C04.view.arange.shape", "C04.view.arange.negative_step", v, 4, 5 - (long)i, 4); }
+    { VIEW(v, view::arange(5, 0, -2, i64)); EXPECT_VIEW1("C04.view.arange.stop_not_on_the_grid", "C04.view.arange.negative_step", v, 3, 5 - 2*(long)i, 5); }
+    // default (float) element type: the values of this grid are small integers, exactly representable
+    { VIEW(v, view::arange(5, 1, -1)); EXPECT_VIEW1("C04.view.arange.shape", "C04.view.arange.negative_step_default_dtype", v, 4, 5 - (long)i, 6); }
+    { VIEW(v, view::arange(1, 7, 2)); EXPECT_VIEW1("C04.view.arange.shape", "C04.view.arange.default_dtype", v, 3, 1 + 2*(long)i, 7); }
 }
 // ---- pad (pad_width: all leading widths, then all trailing widths), resize (nearest-neighbour: src = floor(src_extent * i / dst_extent)), expand
 void ob_c04j_pad(const ARR<2,2>& a, long val)
